@@ -4,6 +4,7 @@ go 1.26.0
 
 require (
 	github.com/glebarez/go-sqlite v1.22.0
+	github.com/mattn/go-sqlite3 v1.14.24
 	github.com/sarchlab/akita/v5 v5.0.0
 )
 
@@ -12,7 +13,6 @@ require (
 	github.com/google/pprof v0.0.0-20250820193118-f64d9cf942d6 // indirect
 	github.com/google/uuid v1.5.0 // indirect
 	github.com/mattn/go-isatty v0.0.20 // indirect
-	github.com/mattn/go-sqlite3 v1.14.24 // indirect
 	github.com/remyoudompheng/bigfft v0.0.0-20230129092748-24d4a6f8daec // indirect
 	github.com/rs/xid v1.6.0 // indirect
 	github.com/shirou/gopsutil v3.21.11+incompatible // indirect
